@@ -591,7 +591,7 @@ Section Written.
     apply Hin_all, covl_in in Hl. destruct Hl as (Hl1 & Hl2 & Hl3).
     set (e := snd (last (c0 :: cs) c0)) in *.
     destruct (N.eqb_spec e 0) as [Hbad|_]; [lia|].
-    unfold read_at.
+    unfold read_at. cbv zeta.
     destruct (N.leb_spec (e - 1 + 1) (N.of_nat (length b))) as [_|Hbad]; [reflexivity|lia].
   Qed.
 
